@@ -103,7 +103,7 @@ class Builder:
 
     def b_Edit(self, r):
         sid, g = self.glyph()
-        return self._leaf(r, S.SpyEdit(sid, g, self.log, r.get("cap", 0), r["len"], r.get("pos", 0), r.get("wrap", "any")), sid, g)
+        return self._leaf(r, S.SpyEdit(sid, g, self.log, r.get("cap", 0), r["len"], r.get("pos", 0), r.get("wrap", "any"), bool(r.get("capsp"))), sid, g)
 
     def b_Icon(self, r):
         sid, g = self.glyph()
@@ -288,7 +288,10 @@ def need(r):
             return r.get("cols", 1), r.get("rows", 1)
         return 1, 1
     if k == "Edit":
-        return r.get("cap", 0) + r["len"] + 1, 1
+        total = r.get("cap", 0) + r["len"] + 2
+        if r.get("wh"):
+            return r["wh"], _ceil_div(total, r["wh"]) + 1
+        return total - 1, 1
     if k == "Icon":
         return max(1, r["len"]), 1
     if k in ("Button", "CheckBox"):
@@ -438,7 +441,13 @@ class Gen:
         x = rng.random()
         if x < 0.4:
             n = rng.randint(0, 7)
-            return {"k": "Edit", "cap": rng.choice([0, 0, 1, 2]), "len": n, "pos": rng.randint(0, n), "wrap": rng.choice(["any", "any", "clip", "space"])}
+            cap = rng.choice([0, 0, 1, 2, 3, 5, 7, 9, 12, 16])
+            r = {"k": "Edit", "cap": cap, "len": n, "pos": rng.randint(0, n), "wrap": rng.choice(["any", "any", "clip", "space", "space"])}
+            if cap >= 3:
+                # captions that wrap at the width the Edit gets: longer than the line, exactly filling it, one short of it
+                r["capsp"] = rng.random() < 0.5  # caption ends in a blank (word wrapping then leaves caption-only rows)
+                r["wh"] = rng.choice([cap + n + 2, cap + 1, cap, cap, cap - 1, max(2, cap // 2), max(2, cap // 3)])
+            return r
         if x < 0.6:
             n = rng.randint(1, 5)
             return {"k": "Icon", "len": n, "cpos": rng.randint(0, n)}
